@@ -74,13 +74,17 @@ def run(res, tier, rng):
                         hits.setdefault("F-C10", "a protocol without colon: canonicalize_url(%r) = %r, again = %r" % (u, c1, c2))
                     elif q and in_known_class(u, known):
                         hits.setdefault("F-C7", "quoted mode on a component holding a dangling '%%' or a raw sub-delimiter: canonicalize_url(%r, quoted=True) = %r, again = %r" % (u, c1, c2))
+                    elif c1 != c1.strip() and any(k.get("id") == "F-C11" for k in known):
+                        hits.setdefault("F-C11", "an escaped whitespace character other than the ASCII space at the very end of the url is decoded, and stripped as surrounding whitespace by the next pass: canonicalize_url(%r) = %r, again = %r" % (u, c1, c2))
                     else:
                         res.violation("property", "canonicalize_url is not idempotent", input=dict(url=u, quoted=q, strip_fragment=sf), impl=[c1, c2])
                 # the two modes are two views of one canonical url
                 other = call(canonicalize_url, c1, quoted=not q, strip_fragment=sf)
                 direct = call(canonicalize_url, u, quoted=not q, strip_fragment=sf)
                 if other != direct:
-                    if in_known_class(u, known):
+                    if c1 != c1.strip() and any(k.get("id") == "F-C11" for k in known):
+                        hits.setdefault("F-C11", "an escaped whitespace character other than the ASCII space at the very end of the url is decoded, and stripped as surrounding whitespace by the next pass: canonicalize_url(%r) = %r, again = %r" % (u, c1, other))
+                    elif in_known_class(u, known):
                         hits.setdefault("F-C7", "mode round trip differs when a component holds a raw character that quote() escapes but unquoting keeps escaped, e.g. canonicalize_url(canonicalize_url(%r, quoted=%s), quoted=%s) = %r != %r" % (u, q, not q, other, direct))
                     else:
                         res.violation("property", "mode round trip: canonicalize(quoted=%s) of the quoted=%s result differs from canonicalize(quoted=%s) of the input" % (not q, q, not q),
